@@ -9,6 +9,8 @@ from .cmdtier import Workspace, panicked, MOD
 from .common import V, GOENV, run
 
 DEP = "package dep\n\ntype A struct{ N int }\n\nfunc NewA() A { return A{N: 7} }\n\nvar Exported = \"dep-exported\"\n"
+THIRD = ("package third\n\ntype Reader struct{ N int }\n\nfunc (r Reader) Read() int { return r.N * 2 }\n\ntype Writer struct{ M string }\n\n"
+         "type List[E any] struct{ Items []E }\n\nvar Origin = \"third\"\n")
 DEP2 = "package dep\n\ntype B struct{ M string }\n\nfunc NewB() B { return B{M: \"other\"} }\n"
 A_GO = ("package corp\n\nimport (\n\t\"example.com/c/corp/dep\"\n\tdepx \"example.com/c/corp/other/dep\"\n)\n\n"
         "type Root struct {\n\tA dep.A\n\tB depx.B\n}\n\nfunc NewRoot(a dep.A, b depx.B) Root { return Root{A: a, B: b} }\n")
@@ -26,6 +28,8 @@ def run_c15(rep, tier):
         os.makedirs(ws.root + "/cmd/run")
         open(d + "/dep/dep.go", "w").write(DEP)
         open(d + "/other/dep/dep.go", "w").write(DEP2)
+        os.makedirs(d + "/third")
+        open(d + "/third/third.go", "w").write(THIRD)
         open(d + "/a.go", "w").write(A_GO)
         src = open(V + "/harness/gosrc/corpus/wire.go.txt").read()
         open(d + "/wire.go", "w").write(src)
